@@ -1,6 +1,9 @@
 package keyspec
 
-import "strings"
+import (
+	"math"
+	"strings"
+)
 
 // getkeysProc returns the indexes of key arguments for a command.
 type getkeysProc func(args []string) []int
@@ -221,8 +224,12 @@ func numkeysStepExtractor(numkeysIdx int, firstKeyIdx int, keyStep int, fixedKey
 		if numkeys <= 0 {
 			return nil
 		}
-		lastKeyIdx := firstKeyIdx + (numkeys-1)*keyStep
-		if firstKeyIdx < 0 || lastKeyIdx >= len(args) {
+		if firstKeyIdx < 0 || firstKeyIdx >= len(args) {
+			return nil
+		}
+		// the count is whatever the stream says : it is compared without multiplying it, the last
+		// counted key has to lie inside the arguments
+		if numkeys-1 > (len(args)-1-firstKeyIdx)/keyStep {
 			return nil
 		}
 		keys := make([]int, 0, len(fixedKeys)+numkeys)
@@ -232,8 +239,8 @@ func numkeysStepExtractor(numkeysIdx int, firstKeyIdx int, keyStep int, fixedKey
 			}
 			keys = append(keys, idx)
 		}
-		for idx := firstKeyIdx; idx <= lastKeyIdx; idx += keyStep {
-			keys = append(keys, idx)
+		for k := 0; k < numkeys; k++ {
+			keys = append(keys, firstKeyIdx+k*keyStep)
 		}
 		return keys
 	}
@@ -246,6 +253,9 @@ func parseCommandInt(arg string) int {
 	v := 0
 	for i := 0; i < len(arg); i++ {
 		if arg[i] < '0' || arg[i] > '9' {
+			return -1
+		}
+		if v > (math.MaxInt-9)/10 {
 			return -1
 		}
 		v = v*10 + int(arg[i]-'0')
